@@ -87,8 +87,9 @@ Update(p) ==
   /\ done' = done \cup {p}
   /\ UNCHANGED <<live, phase, steps>>
 
+(* ResetGradContext(true) IN PLACE, through the pointer, whether or not the parameter was updated in this step *)
 Reset(p) ==
-  /\ phase = "backpropped" /\ p \in done
+  /\ phase = "backpropped"
   /\ P[p].ctx # "fresh"
   /\ P' = [P EXCEPT ![p].ctx = "fresh", ![p].grad = <<>>, ![p].gradA = <<>>]
   /\ last' = "ok"
